@@ -12,8 +12,8 @@ import (
 	"net/http"
 	"net/url"
 	"sort"
-	"strconv"
 	"strings"
+	"unicode/utf8"
 
 	"google.golang.org/genproto/googleapis/api/annotations"
 	_ "google.golang.org/genproto/googleapis/api/httpbody"
@@ -420,11 +420,20 @@ func (p *path) addRule(
 	return nil
 }
 
+// quote returns raw as a JSON string, unless it already is a quoted string.
 func quote(raw []byte) []byte {
-	if n := len(raw); n > 0 && (raw[0] != '"' || raw[n-1] != '"') {
-		raw = strconv.AppendQuote(raw[:0], string(raw))
+	if n := len(raw); n >= 2 && raw[0] == '"' && raw[n-1] == '"' {
+		return raw
 	}
-	return raw
+	if !utf8.Valid(raw) {
+		return raw // not text, rejected by the decoder
+	}
+	// JSON escapes, Go's (\x7f, \v, \U0001f600) are not understood by protojson.
+	b, err := json.Marshal(string(raw))
+	if err != nil {
+		return raw
+	}
+	return b
 }
 
 type param struct {
